@@ -387,8 +387,10 @@ class Exec:
             return z3.And(a.has == b.has, z3.Implies(a.has, z3.And(a.key == b.key, a.val == b.val)))
         if isinstance(a, VDict) and isinstance(b, VDict):
             # equal key sets and equal values on the keys (values off the key set are irrelevant)
-            c = z3.Const(S.fresh_name("kd"), S.PyStr)
-            return z3.And(a.keys == b.keys, z3.ForAll([c], z3.Implies(a.keys[c], a.vals[c] == b.vals[c])))
+            # equal key sets and equal values on the keys (values off the key set are irrelevant): the restrictions to the keys are equal
+            ra = S.lam(lambda c: z3.If(a.keys[c], a.vals[c], z3.RealVal(0)), a.keys, a.vals)
+            rb = S.lam(lambda c: z3.If(b.keys[c], b.vals[c], z3.RealVal(0)), b.keys, b.vals)
+            return z3.And(a.keys == b.keys, ra == rb)
         # different python types never compare equal
         return z3.BoolVal(False)
 
@@ -1150,7 +1152,18 @@ class Exec:
         return self.assign([s.target], s.value, st)
 
     def s_Assign(self, s, st):
-        return self.assign(s.targets, s.value, st)
+        outs = self.assign(s.targets, s.value, st)
+        # hint_assign_<name>: lemma instances assumed right after an assignment to the local <name> (skipped where the clause's
+        # locals do not exist); only for the function under contract, never inside spec functions
+        frame = self.fn_stack[-1] if self.fn_stack else None
+        info = frame[1] if frame is not None and len(frame) > 1 else None
+        if info is not None and not self.spec_mode and len(s.targets) == 1 and isinstance(s.targets[0], ast.Name) \
+                and info.clause("hint_assign_" + s.targets[0].id) is not None:
+            from .verify import apply_hint
+            for kind, s2, payload in outs:
+                if kind == "fall":
+                    apply_hint(self, info, "hint_assign_" + s.targets[0].id, s2)
+        return outs
 
     def assign(self, targets, valnode, st):
         if isinstance(valnode, ast.Call) and len(targets) == 1:
